@@ -11,7 +11,7 @@ import (
 )
 
 const ruleC12 = "C01 paths with functions after every step kind and inside filter operands, each evaluated once without and once with accessor mode on separately decoded copies of the document, with identical recording function sets. " +
-	"Oracle: same length, every accessor-mode element is an Accessor whose Get() deep-equals the plain element, same error type and text, identical function call logs, and no Accessor anywhere inside a function argument. " +
+	"Oracle: same length, every accessor-mode element is an Accessor whose Get() deep-equals the plain element, same error type and text, identical function call logs, and no Accessor anywhere inside a function argument; the same again with the accessor-mode Config made by copying the plain Config value and calling SetAccessorMode on the copy (the original stays plain). " +
 	"Non-trivial: the path has a function or filter and returns >=1 result. Distinct = distinct (path, document, mode)."
 
 func drawC12(rt *rapid.T) *Case {
@@ -95,6 +95,43 @@ func checkC12(c *Case, st *Stats) string {
 	if !sameLogs {
 		return fmt.Sprintf("function call logs differ between the modes:\n   plain    %s\n   accessor %s", callLogString(plain.rec), callLogString(acc.rec))
 	}
+	// The accessor-mode Config derived from the plain one, as a program would write it
+	// (derived := base; derived.SetAccessorMode()): the mode belongs to the derived value only.
+	{
+		base := BuildConfig(nil, true, false)
+		derived := base
+		derived.SetAccessorMode()
+		fd, errD := jsonpath.Parse(c.Path, derived)
+		fb, errB := jsonpath.Parse(c.Path, base)
+		noteParse(c.Path, true, true)
+		noteParse(c.Path, true, false)
+		st.Class("config derived by copy")
+		if errD != nil || errB != nil {
+			return fmt.Sprintf("Parse with a Config copied from another fails: base %v, derived %v", errB, errD)
+		}
+		gotB, eB := fb(c.Document())
+		gotD, eD := fd(c.Document())
+		st.Eval(2)
+		if (eB == nil) != (plain.err == nil) || (eD == nil) != (plain.err == nil) {
+			return fmt.Sprintf("Config copied from another: base (%s, %v), derived accessor (%s, %v), independent plain (%s, %v)", JSONString(gotB), eB, JSONString(gotD), eD, JSONString(plain.got), plain.err)
+		}
+		for i := range gotB {
+			if containsAccessor(gotB[i]) {
+				return fmt.Sprintf("SetAccessorMode on a copy of a Config switched the original to accessor mode: result %d of the original is %T", i, gotB[i])
+			}
+		}
+		if eB == nil && !deepSameList(gotB, plain.got) {
+			return fmt.Sprintf("the Config an accessor-mode copy was made from returns %s, an independent plain Config %s", JSONString(gotB), JSONString(plain.got))
+		}
+		for i := range gotD {
+			if _, ok := gotD[i].(jsonpath.Accessor); !ok {
+				return fmt.Sprintf("accessor mode set on a copy of a Config: result %d is %T, not an Accessor", i, gotD[i])
+			}
+		}
+		if eD == nil && len(gotD) != len(plain.got) {
+			return fmt.Sprintf("accessor mode set on a copy of a Config: %d results, plain mode %d", len(gotD), len(plain.got))
+		}
+	}
 	if !c.AST.HasFunc() {
 		bad := BuildConfigOrder(nil, true, true, true)
 		_, _ = jsonpath.Parse(poisonPaths[len(c.Path)%len(poisonPaths)], bad)
@@ -124,6 +161,18 @@ func checkC12(c *Case, st *Stats) string {
 		})
 	}
 	return ""
+}
+
+func deepSameList(a, b []interface{}) bool {
+	if len(a) != len(b) {
+		return false
+	}
+	for i := range a {
+		if !deepSame(a[i], b[i]) {
+			return false
+		}
+	}
+	return true
 }
 
 func callLogString(r *Recorder) string {
